@@ -4,6 +4,7 @@ import ast
 from .report import Report, AnalysisError
 from .summary import World, node_events, tape_reads
 from .model import dotted
+from .kinds import K
 from .rules_c12 import norm_token
 
 LEVEL = 'other'
@@ -184,9 +185,32 @@ def run(w: World, rep: Report):
             kt = kinds.of(t.ast, t)
             lv = kt.leaves()
             # the boolean decoded from the item popped after the inner check
-            if lv and all(l.tag == 'call' and l.name == 'bytes_to_bool' and l.args and
-                          all(x.tag == 'stack_item' and x.how == 'get' for x in l.args[0].leaves()) for l in lv):
+            def _is_pair_result(l):
+                return l.tag == 'call' and l.name == 'bytes_to_bool' and l.args and \
+                    all(x.tag == 'stack_item' and x.how == 'get' for x in l.args[0].leaves())
+            if lv and any(_is_pair_result(l) for l in lv):
                 res_tests.append(t)
+                stale = [l for l in lv if not _is_pair_result(l)]
+                if stale and isinstance(t.ast, ast.Name):
+                    # a false default assigned *inside* the key loop (so in the same iteration) is not stale
+                    stale = []
+                    for dn, how, pl in cfg.defs_reaching(t.ast.id, t):
+                        if how == 'assign' and isinstance(pl, ast.AST):
+                            kd = kinds.of(pl, dn)
+                            if all(_is_pair_result(l) for l in kd.leaves()):
+                                continue
+                            if isinstance(pl, ast.Constant) and not pl.value and \
+                                    any(a is inner.ast for a in cfg.ancestors(dn.ast)):
+                                continue
+                            stale += list(kd.leaves())
+                        else:
+                            stale.append(K('unknown', why=how))
+                rep.check('C03.R1', f'functions.{fi.name}|result-is-this-pair-check', not stale, line=t.line, file=REL,
+                          why='' if not stale else
+                          (f'the value tested after the inner check is not always the result of *this* check: on some path it is '
+                           f'{", ".join(sorted({x.tag for x in stale}))} (set before the loop or left over from an earlier '
+                           f'iteration, e.g. when the check raises and the error is swallowed) - a failed pair inherits the '
+                           f'previous verdict and is counted as confirmed'))
     if len(res_tests) != 1:
         raise AnalysisError('OP_CHECK_MULTISIG: test of the inner check result not found')
     rt = res_tests[0]
